@@ -116,6 +116,12 @@ func universe(r *rand.Rand) []interface{} {
 	strs := []string{"", "a", "hello world", "é世😀", "with ‹marker› inside", "›‹", "line1\nline2", "\n", "tab\tq\"uote", "×", "a ‹×› b"}
 	s := strs[r.Intn(len(strs))]
 	n := []int{0, 1, -1, 42, -1000000, math.MaxInt32, 0x2039, 0x203A, 10, 65}[r.Intn(10)]
+	return universeOf(s, n, s, n)
+}
+
+// universeOf builds the universe from a string s and an int n; the members that are DECLARED safe (SafeString,
+// SafeInt, ...) are built from ps and pn instead (C02: public values are shared by two instantiations).
+func universeOf(s string, n int, ps string, pn int) []interface{} {
 	in := inner{n, s, 7}
 	var nilErrT *errT
 	var nilPS *ptrStringer
@@ -138,7 +144,7 @@ func universe(r *rand.Rand) []interface{} {
 		goStr{s}, echoFormatter{"t"}, &echoFormatter{"p"},
 		panicStringer{s}, panicStringer{n}, panicStringer{errors.New(s)}, panicErr{s}, panicFormatter{s}, panicGoStr{}, panicStringer{nil},
 		panicStringer{unprintablePanic{}},
-		redact.SafeString(s), redact.SafeInt(n), redact.SafeUint(uint32(n)), redact.SafeFloat(float64(n) / 3), redact.SafeRune(rune(n)),
+		redact.SafeString(ps), redact.SafeInt(pn), redact.SafeUint(uint32(pn)), redact.SafeFloat(float64(pn) / 3), redact.SafeRune(rune(pn)),
 		make(chan int), func() {}, [][]interface{}{{1, s}, {nil}}, []error{errors.New(s), nil}, []fmt.Stringer{strStringer(s)},
 		[]*inner{&in, nil}, map[string]interface{}{"e": errors.New(s), "n": nil},
 		struct {
@@ -307,6 +313,7 @@ func fmtdiffDrive(args []string) {
 	prop := fs.String("prop", "C04", "")
 	fs.Parse(args)
 	rep := lib.NewReport(*prop, "fmtdiff-drive")
+	defer installPoolMonitor(rep)()
 	if *prop == "C11" {
 		// C11 only asks that redact does not panic where fmt does not
 		rep.Filter = func(sig string) bool { return strings.Contains(sig, "panic") }
